@@ -104,8 +104,19 @@ def _seed_worker(args):
         repo = Repo(scratch)
         obs, _summary, errors = run_rules(mod, repo, None)
         keys = sorted({(o.rule, o.key) for o in obs if not o.ok})
-        return {"variant": kind + " " + sid, "twin": kind != "seed", "status": "ran", "fired": sorted({k[0] for k in keys}),
-                "keys": keys, "errors": [list(e) for e in errors], "expect": ["*"] if kind == "seed" else None}
+        res = {"variant": kind + " " + sid, "twin": kind != "seed", "status": "ran", "fired": sorted({k[0] for k in keys}),
+               "keys": keys, "errors": [list(e) for e in errors], "expect": ["*"] if kind == "seed" else None}
+        if kind != "seed":
+            try:
+                meta = json.load(open(os.path.join(os.path.dirname(patch), "meta.json")))
+            except (OSError, ValueError):
+                meta = {}
+            # a refactoring that replaces the algorithm itself (recursion -> explicit stack, a generator helper): the
+            # documented answer is ANALYSIS-ERROR `shape unknown` (exit 2), never a VIOLATION
+            if meta.get("shape_unknown_expected") and all("shape unknown" in str(e[2]) for e in errors):
+                res["errors_expected"] = res["errors"]
+                res["errors"] = []
+        return res
     except Exception as e:
         return {"variant": kind + " " + sid, "twin": kind != "seed", "status": "crashed", "why": repr(e), "expect": [pid]}
     finally:
